@@ -230,6 +230,14 @@ type FuncResult struct {
 }
 
 func (g *Global) verifyFunc(key string) (res *FuncResult) {
+	if strings.HasPrefix(key, "lemma.") {
+		for _, l := range g.cs.Lemmas {
+			if "lemma."+l.Name == key {
+				return g.verifyLemma(l)
+			}
+		}
+		return &FuncResult{Key: key, OutsideSubset: "lemma not found"}
+	}
 	fi := g.funcs[key]
 	res = &FuncResult{Key: key}
 	if fi == nil {
@@ -419,13 +427,13 @@ func (x *Exec) run() {
 			if err != nil {
 				panic(unsupported(err.Error()))
 			}
-			x.inContract++
+			x.c.inContract++
 			v := x.coerce(x.eval(e, st, x.contractEnv(cpos)), ty)
-			x.inContract--
+			x.c.inContract--
 			st.gh["g:"+g.Name] = Val{T: v.T, Ty: ty}
 		}
 		// requires
-		x.inContract++
+		x.c.inContract++
 		var reqs []string
 		for _, r := range x.con.Requires {
 			t := x.defaultType(x.eval(r.Expr, st, x.contractEnv(cpos))).T
@@ -446,7 +454,7 @@ func (x *Exec) run() {
 				x.modRefs = append(x.modRefs, c.accessor("s.ref", v.T))
 			}
 		}
-		x.inContract--
+		x.c.inContract--
 		// vacuity: the preconditions must be satisfiable
 		o := &Obligation{Name: fi.Key + "/vacuity.requires", Kind: "vacuity", PC: "true", Goal: "false", NAssume: len(c.assumes), Ctx: c, Fn: fi.Key, Vacuity: true, Human: "preconditions and axioms are satisfiable"}
 		x.obligs = append(x.obligs, o)
@@ -459,9 +467,18 @@ func (x *Exec) run() {
 	} else if fl.normal != nil && fl.normal.pc != "false" {
 		// falling off the end of a function with results cannot happen in compiled code
 	}
+	if x.inlineMode {
+		if final != nil && len(x.results) == 1 {
+			if v, ok := final.vars[x.results[0]]; ok {
+				x.inlineResult = &v
+			}
+		}
+		return
+	}
 	if final == nil || x.con == nil {
 		return
 	}
+	x.smoke("exit", final, fi.Body.Rbrace)
 	names := map[string]Val{}
 	for i, ro := range x.results {
 		if v, ok := final.vars[ro]; ok {
@@ -482,9 +499,9 @@ func (x *Exec) run() {
 		}
 	}
 	for i, e := range x.con.Ensures {
-		x.inContract++
+		x.c.inContract++
 		t := x.defaultType(x.eval(e.Expr, final, penv)).T
-		x.inContract--
+		x.c.inContract--
 		label := e.Label
 		if label == "" {
 			label = strconv.Itoa(i + 1)
@@ -582,6 +599,9 @@ func (x *Exec) execRangeChan(n *ast.RangeStmt, ch Val, keyObj types.Object, st *
 	}
 	oldBase := x.baseNames
 	x.baseNames = mergeNames(x.baseNames, namesI)
+	if len(spec.Invariants) > 0 {
+		x.smoke(fmt.Sprintf("loop%d.body", ord), body, pos)
+	}
 	x.execGhost(spec.DoStart, body, x.contractEnv(pos))
 	f := x.execBlock(n.Body.List, body, env)
 	end := x.merge(f.normal, f.cont)
@@ -649,6 +669,9 @@ func (x *Exec) execRangeMap(n *ast.RangeStmt, m Val, keyObj, valObj types.Object
 	}
 	oldBase := x.baseNames
 	x.baseNames = mergeNames(x.baseNames, mk(i))
+	if len(spec.Invariants) > 0 {
+		x.smoke(fmt.Sprintf("loop%d.body", ord), body, pos)
+	}
 	x.execGhost(spec.DoStart, body, x.contractEnv(pos))
 	f := x.execBlock(n.Body.List, body, env)
 	end := x.merge(f.normal, f.cont)
@@ -662,4 +685,49 @@ func (x *Exec) execRangeMap(n *ast.RangeStmt, m Val, keyObj, valObj types.Object
 	}
 	c.notes["range over a map iterates an arbitrary duplicate-free enumeration of its keys"] = true
 	return Flow{normal: x.merge(exit, f.brk), ret: f.ret}
+}
+
+
+// verifyLemma checks a closed lemma over spec functions and inlined table builders.
+func (g *Global) verifyLemma(l *Lemma) *FuncResult {
+	key := "lemma." + l.Name
+	res := &FuncResult{Key: key}
+	var pkg *packages.Package
+	if l.Pkg != "" {
+		pkg = g.pkgs[l.Pkg]
+	}
+	if pkg == nil {
+		pkg = g.pkgs["encoding"]
+	}
+	c := newCtx(g)
+	fi := &FuncInfo{Key: key, Pkg: pkg, Sig: types.NewSignatureType(nil, nil, nil, nil, nil, false)}
+	x := &Exec{g: g, c: c, fi: fi, names: map[string]int{}, ord: map[ast.Node]int{}, loopOrd: map[ast.Node]int{}, anchors: map[ast.Stmt][]string{}, usedContracts: map[string]bool{}, baseNames: map[string]Val{}}
+	res.Ctx = c
+	res.Used = x.usedContracts
+	defer func() {
+		if r := recover(); r != nil {
+			if u, ok := r.(unsupportedErr); ok {
+				res.OutsideSubset = u.msg
+				res.Obligations = x.obligs
+				return
+			}
+			panic(r)
+		}
+	}()
+	st := &State{pc: "true", vars: map[types.Object]Val{}, heaps: map[string]string{}, gh: map[string]Val{}}
+	x.alloc0 = c.freshConst("alloc0", "Int")
+	st.alloc = x.alloc0
+	x.entry = st
+	x.modAll = true
+	env := &Env{contract: true, names: map[string]Val{}, pkg: pkg.Types}
+	for _, v := range l.Vars {
+		ty := x.resolveTypeText(v.Type)
+		env.names[v.Name] = Val{T: c.freshConst("v_"+v.Name, c.sortOf(ty)), Ty: ty}
+	}
+	x.c.inContract++
+	t := x.defaultType(x.eval(l.Expr.Expr, st, env)).T
+	x.c.inContract--
+	x.obligs = append(x.obligs, &Obligation{Name: key, Kind: "lemma", Where: l.Where, Human: l.Expr.Text, PC: "true", Goal: t, NAssume: len(c.assumes), Ctx: c, Fn: key})
+	res.Obligations = x.obligs
+	return res
 }
